@@ -45,6 +45,36 @@ pub fn fmt_pi(p: &PublicInput) -> String {
         fmt_rows(&p.continuous_page_headers.iter().map(|h| vec![h.start_address, h.size, h.hash, h.prod]).collect::<Vec<_>>()))
 }
 
+fn tcfg(r: &[Felt]) -> swiftness_commitment::table::config::Config {
+    swiftness_commitment::table::config::Config { n_columns: r[0],
+        vector: swiftness_commitment::vector::config::Config { height: r[1], n_verifier_friendly_commitment_layers: r[2] } }
+}
+fn fmt_tcfg(c: &swiftness_commitment::table::config::Config) -> Vec<Felt> {
+    vec![c.n_columns, c.vector.height, c.vector.n_verifier_friendly_commitment_layers]
+}
+/// StarkConfig = 13 tokens: t c nq nf pow orig inter comp fri.lis fri.nlayers fri.last steps inner
+pub const CFG_TOKENS: usize = 13;
+pub fn parse_cfg(a: &[&str]) -> swiftness_stark::config::StarkConfig {
+    let one = |s: &str| { let r = rows(s); if r.len() != 1 || r[0].len() != 3 { panic!("HX-BAD-INPUT tcfg") } tcfg(&r[0]) };
+    swiftness_stark::config::StarkConfig {
+        traces: swiftness_air::trace::config::Config { original: one(a[5]), interaction: one(a[6]) },
+        composition: one(a[7]),
+        fri: swiftness_fri::config::Config {
+            log_input_size: felt(a[8]), n_layers: felt(a[9]), log_last_layer_degree_bound: felt(a[10]),
+            fri_step_sizes: felts(a[11]), inner_layers: rows(a[12]).iter().map(|r| tcfg(r)).collect() },
+        proof_of_work: swiftness_pow::config::Config { n_bits: u64h(a[4]) as u8 },
+        log_trace_domain_size: felt(a[0]), log_n_cosets: felt(a[1]), n_queries: felt(a[2]),
+        n_verifier_friendly_commitment_layers: felt(a[3]),
+    }
+}
+pub fn fmt_cfg(c: &swiftness_stark::config::StarkConfig) -> String {
+    format!("{} {} {} {} {:x} {} {} {} {} {} {} {} {}", hx(&c.log_trace_domain_size), hx(&c.log_n_cosets), hx(&c.n_queries),
+        hx(&c.n_verifier_friendly_commitment_layers), c.proof_of_work.n_bits,
+        fmt_rows(&[fmt_tcfg(&c.traces.original)]), fmt_rows(&[fmt_tcfg(&c.traces.interaction)]), fmt_rows(&[fmt_tcfg(&c.composition)]),
+        hx(&c.fri.log_input_size), hx(&c.fri.n_layers), hx(&c.fri.log_last_layer_degree_bound), hxs(&c.fri.fri_step_sizes),
+        fmt_rows(&c.fri.inner_layers.iter().map(fmt_tcfg).collect::<Vec<_>>()))
+}
+
 pub fn run(op: &str, a: &[&str]) -> Option<Out> {
     Some(match op {
         // domains <log_trace> <log_n_cosets>
@@ -76,6 +106,15 @@ pub fn run(op: &str, a: &[&str]) -> Option<Out> {
             let pi = parse_pi(&a[0..PI_TOKENS]);
             Out::Ok(hx(&pi.get_hash(felt(a[10]))))
         }
+        // starkcfg <sec> <nc1> <nc2> <CFG x13>
+        "starkcfg" => r(parse_cfg(&a[3..3 + CFG_TOKENS]).validate(felt(a[0]), felt(a[1]), felt(a[2])), |_| String::new()),
+        // fricfg <log_n_cosets> <nf> <lis> <nlayers> <last> <steps> <inner>
+        "fricfg" => {
+            let c = swiftness_fri::config::Config { log_input_size: felt(a[2]), n_layers: felt(a[3]), log_last_layer_degree_bound: felt(a[4]),
+                fri_step_sizes: felts(a[5]), inner_layers: rows(a[6]).iter().map(|r| tcfg(r)).collect() };
+            r(c.validate(felt(a[0]), felt(a[1])), |d| hx(&d))
+        }
+        "fixture_cfg" => Out::Ok(fmt_cfg(&swiftness_stark::fixtures::config::get())),
         // fixture_pi : the in-tree fixture public input in line format
         "fixture_pi" => Out::Ok(fmt_pi(&swiftness_air::fixtures::public_input::get())),
         _ => return None,
